@@ -206,6 +206,12 @@ class TFLiteSubgraph:
                 op.attrs["dilation"] = (1, op.attrs["dilation_h_factor"], op.attrs["dilation_w_factor"], 1)
             if "depth_multiplier" in op.attrs:
                 op.attrs["channel_multiplier"] = op.attrs["depth_multiplier"]
+            for attr in ("strides", "dilation"):
+                if attr in op.attrs and min(op.attrs[attr]) <= 0:
+                    raise InputFileError(
+                        self.graph.name,
+                        f"{optype_to_builtintype(op.type)} '{op.name}' has non-positive {attr}: {op.attrs[attr][1:3]}",
+                    )
 
             if op_type == Op.DepthwiseConv2DBias and op.attrs.get("depth_multiplier", 0) == 0:
                 # The depth multiplier is implicit and is calculated as weight channels / ifm channels
